@@ -1,0 +1,43 @@
+//go:build verif
+
+package badger
+
+import (
+	"os"
+
+	"github.com/dgraph-io/badger/v4/table"
+	"github.com/dgraph-io/badger/v4/y"
+	"github.com/dgraph-io/ristretto/v2/z"
+)
+
+// VerifTableKeys lists user key and version of every entry of the table FILE with the given
+// id, through a second read-only mapping (the table may not be part of any level yet: the crash
+// harness calls this from the flush / compaction hooks). The file is not modified or removed.
+func (db *DB) VerifTableKeys(id uint64) (keys [][]byte, versions []uint64, err error) {
+	fname := table.NewFilename(id, db.opt.Dir)
+	mf, err := z.OpenMmapFile(fname, os.O_RDONLY, 0)
+	if err != nil {
+		return nil, nil, err
+	}
+	topt := buildTableOptions(db)
+	topt.ReadOnly = true
+	// no shared caches: the production table object of the same id must not see our blocks
+	topt.BlockCache = nil
+	topt.IndexCache = nil
+	t, err := table.OpenTable(mf, topt)
+	if err != nil {
+		return nil, nil, err
+	}
+	it := t.NewIterator(0)
+	for it.Rewind(); it.Valid(); it.Next() {
+		k := it.Key()
+		keys = append(keys, y.Copy(y.ParseKey(k)))
+		versions = append(versions, y.ParseTs(k))
+	}
+	it.Close()
+	// unmap and close without truncating or unlinking (DecrRef would delete the file)
+	_ = z.Munmap(t.Data)
+	t.Data = nil
+	_ = t.Fd.Close()
+	return keys, versions, nil
+}
